@@ -130,6 +130,23 @@ pub fn run(ctx: &Ctx, rep: &mut Report) {
             rep.count("legal-branch");
         }
     }
+    // buffers far beyond the protocol maximum whose bit count sits around 2^16 and 2^17
+    // (a 16-bit "remaining bits" would wrap): what is reported must still equal the bits
+    if !crate::mon::is_noalloc() {
+        for &t in SUPPORTED.iter() {
+            if !ctx.mine(item) {
+                item += 1;
+                continue;
+            }
+            item += 1;
+            for bytes in (8185usize..=8235).chain(16_377..=16_430) {
+                let mut bits = Bits::random(bytes * 8, &mut r);
+                bits.put(0, 6, t as u64);
+                let v = gen::run_message_mask(rep, PID, mask, &bits, Via::Raw, "wrap-length");
+                rep.class(format!("t{}|wrap-length|{}", t, v.outcome));
+            }
+        }
+    }
     let mut th = J::obj();
     for (k, v) in thresholds {
         th.set(&k, J::i(v));
